@@ -58,6 +58,28 @@ func TestPropSync(t *testing.T) {
 			c.Reset = rapid.IntRange(1, 2).Draw(t, "resetPackfile")
 			c.ResetAfter = rapid.SampledFrom([]int{0, 1, 5, 40, 200, 1500, 100000}).Draw(t, "resetAfter")
 		}
+		if c.Op == "fetch" && c.Reset == 0 && rapid.IntRange(0, 4).Draw(t, "shallowRemote") == 0 {
+			// the remote holds the commit of one of its ref tips without data (it is a depth-limited
+			// mirror itself): the tip must not be some other tip's ancestor nor share its table with
+			// another commit the remote has, so that this tip is the only thing that is shallow
+			r := c.T.Refs[rapid.IntRange(0, len(c.T.Refs)-1).Draw(t, "shallowRef")]
+			if x := r.R; x >= 0 && c.T.Nodes[x].Owner == syncx.Remote {
+				ok := true
+				for j, nd := range c.T.Nodes {
+					if j != x && nd.Table == c.T.Nodes[x].Table {
+						ok = false
+					}
+					for _, p := range nd.Parents {
+						if p == x {
+							ok = false
+						}
+					}
+				}
+				if ok {
+					c.T.RShallow = x + 1
+				}
+			}
+		}
 		if c.Op == "refetch" && rapid.Bool().Draw(t, "revertTemplate") {
 			// The remote branch is reset to a new commit f that sits on an older commit e_i and
 			// carries e_i's table (a revert), after a depth-limited first fetch left e_i shallow on
@@ -119,6 +141,9 @@ func run(c Case) (o evid.Outcome, err error) {
 	w.Server.MaxPackfileSize = c.MaxPack
 	w.Server.TableNegotiation = c.TableNeg
 	o.Class("op=%s", c.Op)
+	if c.T.RShallow > 0 {
+		o.Class("remote-shallow-at-a-ref-tip")
+	}
 
 	var args []string
 	switch c.Op {
